@@ -1,5 +1,6 @@
 import IPT.Model.F64
 import IPT.Model.Bounded
+import IPT.Real.Inst
 import Mathlib.Order.Monotone.Basic
 import Mathlib.Tactic.Ring
 import Mathlib.Tactic.Linarith
@@ -32,6 +33,16 @@ theorem documented_ranges :
     (Gen.Pressure_LO : α) = 100.0 ∧ (Gen.Pressure_HI : α) = 1050.0 ∧
     (Gen.Temperature_LO : α) = (-90.0) ∧ (Gen.Temperature_HI : α) = 57.0 :=
   ⟨rfl, rfl, rfl, rfl, rfl, rfl, rfl, rfl, rfl, rfl, rfl, rfl⟩
+
+/-- **the range check over the reals**: the generic `tryFrom` (the one the hours model and the CLI
+    wiring use) accepts exactly the values in the closed range of the regenerated bounds and stores
+    them unchanged - the real-number reading of `accepted_iff_in_range` below, which states the same
+    at the level of binary64 bit patterns -/
+theorem tryFrom_real_iff (t : BType) (v : ℝ) :
+    (tryFrom t v = some v ↔ (t.lo : ℝ) ≤ v ∧ v ≤ (t.hi : ℝ)) ∧ (tryFrom t v = none ↔ ¬ ((t.lo : ℝ) ≤ v ∧ v ≤ (t.hi : ℝ))) := by
+  unfold tryFrom
+  simp only [sc_leb, Bool.and_eq_true, decide_eq_true_eq]
+  constructor <;> by_cases h : (t.lo : ℝ) ≤ v ∧ v ≤ (t.hi : ℝ) <;> simp [h]
 
 /-- every one of the six types routes JSON through `try_from`.  False of the code as first found
     (Pressure and Temperature lacked `serde(try_from = "f64")`). -/
